@@ -28,7 +28,7 @@ plugin glue (Model/C09Plugin.lean):
   bsync <oldC|-1> <oldM|-1> <thrPermille> -> `bsync <0|1>`                  (after bprep)
   hcfg <enabled> <updateIntervalSec> <thrPermille>
   newround    -> forget the scenario but keep the node's published amounts and the last sync time
-  rec         -> `node <bc> <bm> <mc> <mm>` `sync <0|1>` `ratio <kind> <pct>` `originanno none|<cpu> <mem>` (one Reconcile at `time`'s now; the
+  rec         -> `node <bc> <bm> <mc> <mm>` `sync <0|1>` `ratio <kind> <pct>` `originanno none|<cpu> <mem>` [`zonesclear <0|1>` on a withdrawn round] (one Reconcile at `time`'s now; the
                  NodeResource is threaded through every prepare call site, Model/C09Reconcile.lean)
   norm <kind 0 absent|1 unparsable|2 pct> <pct>   cpu-normalization ratio annotation of the round's NodeResource
   noderatio <kind> <pct>                          somebody (not the controller) rewrites the node's ratio annotation
@@ -66,6 +66,7 @@ structure St where
   ratio : RatioAnno := .absent          -- the round's NodeResource annotation
   nodeRatio : RatioAnno := .absent      -- the node object's annotation (kept across rounds)
   nodeOrigin : Option (Int × Int) := none
+  nrtZones : List (Int × Int) := [(0, 0), (0, 0)]   -- NRT zone batch amounts, abstracted: (1,1) = "whatever a fresh round wrote"
   frac : Int × Int := (0, 0)
   bnr : Option (Bool × ThirdParty × NRes) := none
 
@@ -130,11 +131,13 @@ def showRec (st : St) : St × List String :=
     let nr := nresOf floatOps stdPrio stdMidDefaults en s ms n st.allocNil st.hosts.toList st.pods.toList st.mets.toList mm hu now upd st.ratio
     let c := (prepareAll floatOps nr).1
     let r' := (reconcileNR floatOps diffOps thr interval now { r := st.rst, ratio := st.nodeRatio, origin := st.nodeOrigin } nr).1
-    ({ st with rst := r'.r, nodeRatio := r'.ratio, nodeOrigin := r'.origin },
+    let zones' := preUpdateZones (fun old _ => old.map (fun _ => (1, 1))) nr.resetB (if nr.resetB then none else some []) st.nrtZones
+    ({ st with rst := r'.r, nodeRatio := r'.ratio, nodeOrigin := r'.origin, nrtZones := zones' },
      [s!"node {showExt r'.r.pub.bc} {showExt r'.r.pub.bm} {showExt r'.r.pub.mc} {showExt r'.r.pub.mm}",
       s!"sync {b2i (commonNeedSync st.rst.lastSync now interval || pluginsNeedSync diffOps thr st.rst.pub c)}",
       showRatio r'.ratio,
-      match r'.origin with | none => "originanno none" | some (c, m) => s!"originanno {c} {m}"])
+      match r'.origin with | none => "originanno none" | some (c, m) => s!"originanno {c} {m}"] ++
+      (if nr.resetB then [s!"zonesclear {b2i (zones'.all (fun z => z == (0, 0)))}"] else []))
   | _, _, _, _, _, _ => (st, ["bad-op"])
 
 def step (st : St) (line : String) : St × List String :=
@@ -142,7 +145,7 @@ def step (st : St) (line : String) : St × List String :=
   match toks line with
   | ["calc"] => (st, showCalc st)
   | ["clear"] => ({}, [])
-  | ["newround"] => ({ rst := st.rst, nodeRatio := st.nodeRatio, nodeOrigin := st.nodeOrigin }, [])
+  | ["newround"] => ({ rst := st.rst, nodeRatio := st.nodeRatio, nodeOrigin := st.nodeOrigin, nrtZones := st.nrtZones }, [])
   | ["nodewipe"] => ({ st with nodeRatio := .absent, nodeOrigin := none }, [])
   | ["rec"] => showRec st
   | ["bagain"] =>
